@@ -349,7 +349,13 @@ impl Emitter {
                     Node::CaptureGroup { id, contents, name } => {
                         let group = *id;
                         self.result.groups += 1;
-                        self.group_names.push(name.as_deref().unwrap_or("").into());
+                        // Groups inside a lookbehind are emitted right to left, so index the
+                        // names by group id rather than by emission order.
+                        let idx = group as usize;
+                        if self.group_names.len() <= idx {
+                            self.group_names.resize(idx + 1, "".into());
+                        }
+                        self.group_names[idx] = name.as_deref().unwrap_or("").into();
                         self.emit_insn(Insn::BeginCaptureGroup(group));
                         stack.push(Emitter::EndCaptureGroup { group });
                         stack.push(Emitter::Node(contents));
